@@ -507,6 +507,10 @@ def rule_accumulators(F, rep, rid, pred, floor, where_txt, consequence):
     (or records a search result that ends the loop)."""
     from facts import AnalysisBroken
     rep.rule(rid, 'in %s a flag that is gathered over a loop and consulted afterwards is only ever raised inside the loop (or the loop stops at the first hit): a plain assignment `flag = <test of this element>` lets the LAST element decide; %s' % (where_txt, consequence))
+    from facts import fixture_funcs
+    fx = fixture_funcs('accum')
+    if [m for v, l, x, m in accumulating_flags(fx['fixtureAccumBad'])] != [False] or [m for v, l, x, m in accumulating_flags(fx['fixtureAccumGood'])] != [True]:
+        raise AnalysisBroken('%s: the detector does not separate the two fixture functions (sa/fixtures/src/accum.cpp)' % rid)
     n = 0
     for g in F.funcs.values():
         if not pred(g):
@@ -514,8 +518,8 @@ def rule_accumulators(F, rep, rid, pred, floor, where_txt, consequence):
         for v, loop, x, mono in accumulating_flags(g):
             n += 1
             rep.check(mono, rid, '%s|%s' % (g.name, render(x)[:50]), g.where(x), '%s: `%s` inside the loop lets the last element decide `%s`, which is consulted after the loop' % (g.short, render(x)[:60], v['n']), 'only raised')
-    if n < floor:
-        raise AnalysisBroken('%s: %d accumulating flags found in %s, %d confirmed' % (rid, n, where_txt, floor))
+    # the number of such flags is not an anchor (a search loop rewritten with std::find has none): the fixture shows that the detector works
+    rep.ok(rid, 'scan', None, '%d accumulating flags in %s (%d when the rule was written; fixture: 1 of 2 functions flagged, as expected)' % (n, where_txt, floor))
 
 
 def _all_paths_pass(cfg, start, target, through_ids):
@@ -704,3 +708,150 @@ def rule_cursor_loops(F, rep, rid, pred, floor, where_txt):
                       '%s advances the cursor `%s` at line %s, before the loop that walks the siblings' % (f.short, curs[0]['n'], out[0].get('l') if out else ''), 'advanced inside the loop only')
     if n < floor:
         raise AnalysisBroken('%s: only %d sibling-cursor loops found in %s (%d confirmed)' % (rid, n, where_txt, floor))
+
+
+def single_def(f, d):
+    """Initialiser of a local that is defined exactly once (declaration with initialiser, never assigned again, not an out-argument
+    taken by address), else None."""
+    cache = f.__dict__.setdefault('_single_defs', {})
+    if d in cache:
+        return cache[d]
+    inits = [v['c'][0] for v in f.walk() if v.get('k') == 'Var' and v.get('d') == d and v.get('c')]
+    res = None
+    if len(inits) == 1:
+        writes = False
+        for x in f.walk():
+            c = x.get('c', [])
+            if not c:
+                continue
+            if x.get('k') in ('Bin', 'CAssign') and c[0].get('k') == 'Ref' and c[0].get('d') == d and (x.get('k') == 'CAssign' or x.get('op') == '='):
+                writes = True
+            elif x.get('k') == 'Call' and x.get('opc') in ('=', '+=', '-=') and c[0].get('k') == 'Ref' and c[0].get('d') == d:
+                writes = True
+            elif x.get('k') == 'Un' and x.get('op') in ('++', '--', '&') and c[0].get('k') == 'Ref' and c[0].get('d') == d:
+                writes = True
+        if not writes:
+            res = inits[0]
+    cache[d] = res
+    return res
+
+
+def _expandable(t):
+    t = t or ''
+    return t.replace('const ', '') in ('bool', 'unsigned long', 'size_t', 'int', 'std::size_t', 'double') or t.startswith('const ')
+
+
+def render_x(f, n, depth=0):
+    """render() with named sub-expressions spelled out: a scalar/bool/size local that is defined once is replaced by (its initialiser)."""
+    if n is None:
+        return ''
+    if n.get('k') == 'Ref' and n.get('dk') == 'local' and depth < 4 and _expandable(n.get('t')):
+        i_ = single_def(f, n.get('d'))
+        if i_ is not None:
+            return render_x(f, i_, depth + 1)
+    if not n.get('c') or n.get('k') in ('Lambda',):
+        return render(n)
+    # re-render with substituted children: rely on render for the shape by rendering a shallow copy whose Ref children are replaced by pseudo refs
+    def sub(x, dp):
+        if x.get('k') == 'Ref' and x.get('dk') == 'local' and dp < 4 and _expandable(x.get('t')):
+            i2 = single_def(f, x.get('d'))
+            if i2 is not None:
+                return sub(i2, dp + 1)
+        if not x.get('c'):
+            return x
+        y = dict(x)
+        y['c'] = [sub(c, dp) for c in x['c']]
+        return y
+    return render(sub(n, depth))
+
+
+def rendered_conds_x(f, node):
+    """Branch facts at node with named sub-conditions spelled out (see render_x); the decomposition into conjuncts is redone on the
+    expanded condition, so `if (!ok)` with `ok = a == 0` yields the fact (a == 0, False)."""
+    cs = ff(f).conds_at(node)
+    if cs is None:
+        return None
+    out = set()
+    for c, t in cs:
+        out.add((render(c), t))
+        out.add((render_x(f, c), t))
+        if c.get('k') == 'Ref' and c.get('dk') == 'local':
+            i_ = single_def(f, c.get('d'))
+            if i_ is not None:
+                tmp = []
+                _decompose(i_, t, tmp)
+                for c2, t2 in tmp:
+                    out.add((render_x(f, c2), t2))
+        if c.get('k') == 'Un' and c.get('op') == '!' and c['c'][0].get('k') == 'Ref' and c['c'][0].get('dk') == 'local':
+            i_ = single_def(f, c['c'][0].get('d'))
+            if i_ is not None:
+                tmp = []
+                _decompose(i_, not t, tmp)
+                for c2, t2 in tmp:
+                    out.add((render_x(f, c2), t2))
+    return out
+
+
+def _mentions(t, a):
+    return (t[0] == 'atom' and t[1] == a) or (t[0] != 'atom' and any(_mentions(x, a) for x in t[1:]))
+
+
+def implied_literals(f, site, atom_of):
+    """Propositional closure of the branch facts at `site`: atom_of(node) names the atoms (None = not an atom: the node is then an
+    opaque free variable of its own).  Returns {atom: bool} for every atom whose value is the same in all assignments that satisfy the
+    facts (so `!(a && b)` together with `a` yields b = False, whatever way the if/else chain was written)."""
+    import itertools
+    cs = ff(f).conds_at(site)
+    if cs is None:
+        return None
+    atoms = []
+
+    def build(n):
+        while n.get('k') in ('Paren', 'Cast', 'Construct') and len(n.get('c', [])) == 1:
+            n = n['c'][0]
+        if n.get('k') == 'Ref' and n.get('dk') == 'local':
+            i_ = single_def(f, n.get('d'))
+            a0 = atom_of(n)
+            if a0 is None and i_ is not None and (n.get('t') or '').replace('const ', '') == 'bool':
+                return build(i_)
+        a = atom_of(n)
+        if a is not None:
+            if a not in atoms:
+                atoms.append(a)
+            return ('atom', a)
+        if n.get('k') == 'Bin' and n.get('op') in ('&&', '||'):
+            return (n['op'], build(n['c'][0]), build(n['c'][1]))
+        if n.get('k') == 'Un' and n.get('op') == '!':
+            return ('!', build(n['c'][0]))
+        key = 'opaque:%s' % n.get('i')
+        if key not in atoms:
+            atoms.append(key)
+        return ('atom', key)
+
+    def ev(t, env):
+        if t[0] == 'atom':
+            return env[t[1]]
+        if t[0] == '!':
+            return not ev(t[1], env)
+        a, b = ev(t[1], env), ev(t[2], env)
+        return (a and b) if t[0] == '&&' else (a or b)
+    def named(t):
+        return (t[0] == 'atom' and not t[1].startswith('opaque:')) or (t[0] != 'atom' and any(named(x) for x in t[1:]))
+    # facts that mention none of the named atoms say nothing about them (and, merged by text across program points, may contradict each other)
+    forms = [(fm, t) for fm, t in ((build(c), t) for c, t in cs) if named(fm)]
+    atoms = [a for a in atoms if not a.startswith('opaque:') or any(_mentions(fm, a) for fm, t in forms)]
+    if len(atoms) > 14:
+        return {}
+    sat = []
+    for vals in itertools.product((False, True), repeat=len(atoms)):
+        env = dict(zip(atoms, vals))
+        if all(ev(fm, env) == t for fm, t in forms):
+            sat.append(env)
+    out = {}
+    for a in atoms:
+        if a.startswith('opaque:') or not sat:
+            continue
+        vs = {e[a] for e in sat}
+        if len(vs) == 1:
+            out[a] = vs.pop()
+    return out
